@@ -104,8 +104,11 @@ func decide(file, weakFile string, timeout time.Duration, cross bool, sem chan s
 	defer timer.Stop()
 	got := 0
 	unsats := 0
+	confirm := make(<-chan time.Time)
 	for got < nTotal {
 		select {
+		case <-confirm:
+			return best, all // cross-check window over: first answer stands, unconfirmed
 		case <-timer.C:
 			for launched < len(solvers) {
 				launch(solvers[launched])
@@ -128,6 +131,9 @@ func decide(file, weakFile string, timeout time.Duration, cross bool, sem chan s
 				}
 				if !cross || unsats >= 2 {
 					return best, all
+				}
+				if unsats == 1 {
+					confirm = time.After(20 * time.Second)
 				}
 			case "sat":
 				if best.result != "unsat" {
@@ -214,6 +220,11 @@ func solveAll(ts []*fnTrans, outDir string, timeout time.Duration, cross bool, w
 				}
 				if best.result == "sat" {
 					j.o.Model = best.output
+				}
+				for _, a := range all {
+					if a.result == "unsat" {
+						j.o.Confirmed++
+					}
 				}
 			}
 		}()
